@@ -14,7 +14,8 @@ Inductive wrapper :=
   | WAligned (min_alignment : Z)  (* aligned_allocator *)
   | WSegregator (threshold : Z)   (* binary_segregator<threshold_segregatable>: leaf 0 up to the threshold, else the rest of the chain on leaf 1 *)
   | WStd (sT aT : Z)              (* std_allocator<T>: allocate(n) *)
-  | WResource (max : Z).          (* memory_resource_adapter: bytes -> node or array of max-sized elements *)
+  | WResource (max : Z)           (* memory_resource_adapter: bytes -> node or array of max-sized elements *)
+  | WNodeOnly.                    (* allocator_traits over a RawAllocator without array members (memory_resource_allocator): an array travels as one node of count * size bytes *)
 
 (* a request in flight: kind, count, size, alignment, and the leaf it is heading to *)
 Definition through (w : wrapper) (c : lcall) : lcall :=
@@ -37,6 +38,11 @@ Definition through (w : wrapper) (c : lcall) : lcall :=
       (* the request carries bytes in lc_size *)
       if lc_size c <=? max then {| lc_leaf := lc_leaf c; lc_kind := KNode; lc_count := 1; lc_size := lc_size c; lc_align := lc_align c |}
       else {| lc_leaf := lc_leaf c; lc_kind := KArray; lc_count := lc_size c / max + (if lc_size c mod max =? 0 then 0 else 1); lc_size := max; lc_align := lc_align c |}
+  | WNodeOnly =>
+      match lc_kind c with
+      | KNode => c
+      | KArray => {| lc_leaf := lc_leaf c; lc_kind := KNode; lc_count := 1; lc_size := lc_count c * lc_size c; lc_align := lc_align c |}
+      end
   end.
 
 (* outermost wrapper first *)
